@@ -376,12 +376,17 @@ func obsLine(in *interner, got []captured, st string, crashed any) string {
 		return fmt.Sprintf("OBS multi %d", len(got))
 	}
 	c := got[0]
-	if r, err := mgmt.ParseControlResponse(enc.NewBufferReader(c.content), true); err == nil && r.Val != nil {
+	// a ControlResponse is read with the independent decoder (protocol numbers), as a client would
+	if code, _, args, err := specDecodeResponse(c.content); err == nil {
 		nh := "-"
 		if c.nextHop != nil {
 			nh = strconv.FormatUint(*c.nextHop, 10)
 		}
-		return fmt.Sprintf("OBS ctl %d %s %s", r.Val.StatusCode, cargsStr(r.Val.Params, false), nh)
+		return fmt.Sprintf("OBS ctl %d %s %s", code, cargsStr(args, false), nh)
+	}
+	if r, err := mgmt.ParseControlResponse(enc.NewBufferReader(c.content), true); err == nil && r.Val != nil {
+		// only the repository's own parser understands this response
+		return fmt.Sprintf("OBS ctlbad %d", r.Val.StatusCode)
 	}
 	// a status dataset: <prefix>/<module>/<verb>[/<filter>]/v=<version>/seg=0
 	n := c.name
@@ -475,6 +480,11 @@ func decodeForModel(in *interner, final enc.Name) (pdec string, qdec string) {
 	if p, err := mgmt.ParseControlParameters(enc.NewBufferReader(val), true); err == nil && p.Val != nil {
 		pdec = cargsStr(p.Val, true)
 	}
+	// A component that is a well-formed ControlParameters by the protocol's numbers means what the independent decoder reads,
+	// whatever the repository's parser makes of it (codecDiff reports a disagreement).
+	if a, ok := specDecodeParams(val); ok {
+		pdec = cargsStr(a, true)
+	}
 	if q, err := mgmt.ParseFaceQueryFilter(enc.NewBufferReader(val), true); err == nil {
 		if q.Val == nil {
 			qdec = "nil" // the handler dereferences filterV.Val
@@ -536,6 +546,41 @@ func opensSocket(final enc.Name) bool {
 	return true
 }
 
+// codecDiff: for a well-formed ControlParameters (protocol numbers, canonical order) the repository's parser must read the same
+// fields as the independent decoder. Returns "" or "spec=<..>!impl=<..>".
+func codecDiff(final enc.Name) string {
+	if len(final) < 5 {
+		return ""
+	}
+	a, ok := specDecodeParams(final[4].Val)
+	if !ok {
+		return ""
+	}
+	want := cargsStr(a, false) + countStr(a)
+	got := "undecodable"
+	if p, err := mgmt.ParseControlParameters(enc.NewBufferReader(final[4].Val), true); err == nil && p.Val != nil {
+		got = cargsStr(p.Val, false) + countStr(p.Val)
+	}
+	if want != got {
+		return "spec=" + want + "!impl=" + got
+	}
+	return ""
+}
+
+func countStr(a *mgmt.ControlArgs) string {
+	s := ""
+	if a.Count != nil {
+		s += fmt.Sprintf("+count=%d", *a.Count)
+	}
+	if a.Uri != nil {
+		s += "+uri=" + hex.EncodeToString([]byte(*a.Uri))
+	}
+	if a.LocalUri != nil {
+		s += "+luri=" + hex.EncodeToString([]byte(*a.LocalUri))
+	}
+	return s
+}
+
 // appKind: what rib/announce will find in the ApplicationParameters
 func appKind(app []byte) int {
 	if len(app) == 0 {
@@ -588,6 +633,9 @@ func runCase(id int, cs *caseSpec, emit func(string)) error {
 			continue
 		}
 		emit(fmt.Sprintf("CMD %d %s %s %d %s", m.inFace, nameStr(final), pdec, appKind(m.app), qdec))
+		if d := codecDiff(final); d != "" {
+			emit("CODECDIFF " + d)
+		}
 		got, st := w.command(wire, m.inFace)
 		emit(obsLine(in, got, st, w.crashed))
 		emit(fmt.Sprintf("TAB %s %s %s %d %s", ribTable(), fibTable(), stratTable(), table.CsCapacity(), facesTable(in)))
